@@ -57,6 +57,7 @@ class Driver:
         if cls.proc is None or cls.proc.poll() is not None:
             if not os.path.exists(core.DRIVER):
                 raise core.Infra("driver not built: " + core.DRIVER)
+            core.USED_LAYERS.add("relative")
             cls.proc = subprocess.Popen([core.DRIVER, "relative"], stdin=subprocess.PIPE, stdout=subprocess.PIPE,
                                         text=True, bufsize=1)
         p = cls.proc
